@@ -19,8 +19,8 @@ RULE = ("assignments of {selected, not selected} to every (loss term, parameter 
         "theta, phi (both read by the network and the equation, so every pair has a non-zero gradient) and kappa "
         "(equation only): ODE 3 terms (exhaustive 2^9 on the three main groups), stationary 4 terms (2^12: "
         "exhaustive in the thorough tier), non-stationary 5 terms (random + all single-bit / all-but-one; 2^15 "
-        "exhaustive in the thorough tier), 2-unknown systems (random masks per unknown); string forms (3^k) and "
-        "defaults; a case is one assignment; non-trivial = at least one selected and one unselected pair with "
+        "exhaustive in the thorough tier), 2-unknown systems (random masks per unknown); string forms (3^k), "
+        "defaults and partially specified keys (every subset size of terms given, the rest left to the default); a case is one assignment; non-trivial = at least one selected and one unselected pair with "
         "|dT/dg| > 1e-6; distinct = distinct (kind, assignment)")
 ASSUMPTIONS = [
     "the 'gradient of a term' is the gradient of that returned term in the all-selected loss (term values themselves: C03-C05)",
@@ -29,9 +29,9 @@ ASSUMPTIONS = [
 ]
 TIMEOUT = {"quick": 1800, "thorough": 7200}
 MIN_COUNTERS = {"quick": {"assignments_checked": 900, "static_mask_assignments": 20, "string_forms_checked": 30,
-                          "system_assignments_checked": 40, "nonzero_pairs_min": 1},
+                          "system_assignments_checked": 40, "nonzero_pairs_min": 1, "partial_specifications_checked": 15},
                 "thorough": {"assignments_checked": 30000, "static_mask_assignments": 100, "string_forms_checked": 150,
-                             "system_assignments_checked": 400, "nonzero_pairs_min": 1}}
+                             "system_assignments_checked": 400, "nonzero_pairs_min": 1, "partial_specifications_checked": 60}}
 GROUPS = ["nn", "theta", "phi", "kappa"]
 TERMS = {"ode": ["dyn_loss", "initial_condition", "observations"],
          "statio": ["dyn_loss", "norm_loss", "boundary_loss", "observations"],
@@ -233,6 +233,34 @@ def run_case(case, rec):
             vals, jac = guard.call(jax.jit(observe), l2, params, batch)
             rec.count("defaults_checked")
             check(bits, vals, jac, "default/%s/%s" % (kind, label), label)
+        # partially specified keys through the plain constructor: the given masks are honoured, every term left
+        # unspecified (None) gets the default (network parameters only)
+        subsets = [ss for r_ in range(1, len(terms)) for ss in itertools.combinations(terms, r_)]
+        first = [ss for ss in subsets if len(ss) == len(terms) - 1] + [ss for ss in subsets if len(ss) == 1]
+        rest = [ss for ss in subsets if ss not in first]
+        chosen = first + [rest[int(i)] for i in rng.permutation(len(rest))[: max(0, case["n"] // 2 - len(first))]]
+        for ss in chosen:
+            code = int(rng.integers(0, 2 ** (4 * len(terms))))
+            bits = {}
+            for ti, t in enumerate(terms):
+                for gi, g in enumerate(GROUPS):
+                    bits[(t, g)] = ((code >> (4 * ti + gi)) & 1) if t in ss else int(g == "nn")
+            kw = {dk_name[t]: Params(nn_params=bool(bits[(t, "nn")]),
+                                     eq_params={g: bool(bits[(t, g)]) for g in ("theta", "phi", "kappa")}) for t in ss}
+            try:
+                dk = guard.call(DK, params=params, **kw)
+                l2 = guard.call(type(loss), **_loss_kwargs(pr, dk))
+                vals, jac = guard.call(jax.jit(observe), l2, params, batch)
+            except guard.Crash as c:
+                rec.count("partial_specifications_checked")
+                rec.violation("partial-specification/%s/crash/%s" % (kind, c.etype),
+                              "keys given for %s only (others left to the default): %s" % ("+".join(ss), c))
+                continue
+            if rec.counters.get("partial_specifications_checked", 0) % 10 == 9:
+                jax.clear_caches()
+            rec.count("partial_specifications_checked")
+            rec.count("assignments_checked")
+            check(bits, vals, jac, "partial-specification/%s" % kind, "given=%s code=%d" % ("+".join(ss), code))
         rec.set_sample(kind=kind, mode="strings", combos=[list(c) for c in pick[:4]])
         return
 
@@ -285,6 +313,7 @@ def run_system(case, rec, rng):
     sp.nets = {n: nets.Net(fields.TrigField(777 + i, sp.D, 1), sp.eqt, reads=("theta", "phi")) for i, n in enumerate(names)}
     sp.u0 = {n: sp.u0[n][:1] for n in names}
     sp.obs_slice = {n: None for n in names}
+    sp.bdim = {n: None for n in names}
     sp.make_data(3)
     for n in names:
         sp.obs_val[n] = sp.obs_val[n][:, :1]
